@@ -383,6 +383,11 @@ func (g *G) opMine(ord int) {
 			r := "ok"
 			if err != nil {
 				r = "err:mine"
+			} else if s.plotted {
+				if g.mined == nil {
+					g.mined = map[int]bool{}
+				}
+				g.mined[ord] = true // ready -> mining: remove and delete are refused from now on (the keeper model, C09/C11)
 			}
 			g.h.Emit(fmt.Sprintf("mine %d", ord), r+" "+g.stateStr())
 			return
@@ -631,7 +636,13 @@ func (g *G) generate() {
 			}
 			g.opApiDirs(as)
 		case 8:
-			if idx := g.indexed(); len(idx) > 0 {
+			var idx []space
+			for _, s := range g.indexed() { // a mining space refuses remove / delete: the configuration model has no space states
+				if !g.mined[s.ord] {
+					idx = append(idx, s)
+				}
+			}
+			if len(idx) > 0 {
 				if x := r.Intn(4); x == 0 {
 					g.opDelete(idx[r.Intn(len(idx))].ord)
 				} else if x == 1 {
